@@ -32,7 +32,7 @@ from vf.common import Report, driver_main, wants, silence_sc3_logging, REPO, VER
 from vf.specs import graphgen as gg
 from vf.drivers import C02
 
-LOCK_TIMEOUT = 30.0
+LOCK_TIMEOUT = 20.0
 
 
 def _init_sc3(mode='nrt'):
@@ -41,6 +41,7 @@ def _init_sc3(mode='nrt'):
     silence_sc3_logging()
     import sc3
     sc3.init(mode)
+    gg.install_bytesio_guard()
 
 
 # ---------------------------------------------------------------------------
@@ -310,11 +311,14 @@ def run_worker(spec, hashseed):
     env['VF_C20_SPEC'] = json.dumps(spec)
     env['PYTHONHASHSEED'] = str(hashseed)
     env['PYTHONPATH'] = VERIF + os.pathsep + REPO
-    p = subprocess.run(
-        [sys.executable, '-W', 'ignore', '-c',
-         'from vf.drivers import C20; C20.worker()'],
-        env=env, stdout=subprocess.PIPE, stderr=subprocess.PIPE, timeout=600,
-        cwd=VERIF)
+    try:
+        p = subprocess.run(
+            [sys.executable, '-W', 'ignore', '-c',
+             'from vf.drivers import C20; C20.worker()'],
+            env=env, stdout=subprocess.PIPE, stderr=subprocess.PIPE,
+            timeout=600, cwd=VERIF)
+    except subprocess.TimeoutExpired:
+        return None, 'timeout after 600 s'
     for line in p.stdout.decode('utf-8', 'replace').splitlines():
         if line.startswith('C20RESULT '):
             return json.loads(line[len('C20RESULT '):]), None
@@ -369,7 +373,8 @@ def run_history(hist, good, ref, fb):
         if msg:
             return {'pos': pos, 'what': 'after step %d (%s): %s' % (pos, step, msg),
                     'observed': msg, 'expected': 'reference bytes in time',
-                    'kind': 'lock-or-bytes'}
+                    'kind': 'lock-held' if 'did not finish' in msg
+                    else 'bytes-in-thread'}
     return None
 
 
@@ -382,6 +387,7 @@ def _sub_histories(rep, specs, ref):
     maxlen = 3 if rep.tier == 'quick' else 4
     n = 0
     reported = {}
+    stop = False
     for L in range(1, maxlen + 1):
         for hist in itertools.product(steps, repeat=L):
             if L > 1 and all(h in good for h in hist):
@@ -398,6 +404,15 @@ def _sub_histories(rep, specs, ref):
                                   input={'history': full}, observed=p['observed'],
                                   expected=p['expected'], key=key,
                                   replay={'func': 'history', 'args': full})
+                if p['kind'] == 'lock-held':
+                    # every further failing build would cost a timeout
+                    rep._lock_broken = True
+                    rep.note('histories stopped after %d sequences: the build '
+                             'lock stays held after a failing build' % n)
+                    stop = True
+                    break
+        if stop:
+            break
     rep.bounded(name='histories', function='SynthDef.__init__ + as_bytes',
                 bound='every sequence of length <= %d over %s, followed by A, B'
                       % (maxlen, steps),
@@ -424,6 +439,8 @@ def _sub_threads(rep, specs, ref):
             picks = [rng.sample(range(len(specs)), min(6, len(specs)))
                      for _ in range(nth)]
             extra = r % 3            # 0: builds only, 1: + failing builds, 2: + reader
+            if extra == 1 and getattr(rep, '_lock_broken', False):
+                extra = 0
             results = [None] * nth
             start = threading.Barrier(nth)
 
@@ -494,13 +511,14 @@ def _sub_subprocess(rep, specs_seed, nspecs, ref, which):
         for i, hs in enumerate(seeds):
             runs.append(({'mode': 'nrt', 'corpus_seed': specs_seed, 'n': nspecs,
                           'order': ('fwd', 'rev', 'shuffle')[i % 3],
-                          'order_seed': i, 'warm': i % 2}, hs))
+                          'order_seed': i, 'warm': 0 if getattr(rep, '_lock_broken', False) else i % 2}, hs))
     else:
         runs.append(({'mode': 'rt', 'corpus_seed': specs_seed, 'n': nspecs,
                       'order': 'fwd', 'warm': 0}, 0))
         if not quick:
             runs.append(({'mode': 'rt', 'corpus_seed': specs_seed, 'n': nspecs,
-                          'order': 'shuffle', 'order_seed': 5, 'warm': 1}, 7))
+                          'order': 'shuffle', 'order_seed': 5,
+                          'warm': 0 if getattr(rep, '_lock_broken', False) else 1}, 7))
     n = 0
     done = 0
     from concurrent.futures import ThreadPoolExecutor
